@@ -10,6 +10,7 @@ import (
 	"fmt"
 	"io"
 	"strings"
+	"sync"
 
 	"github.com/gogo/protobuf/gogoproto"
 	"github.com/gogo/protobuf/proto"
@@ -267,10 +268,35 @@ func BuildMessage(pkg string, m *ir.Message, msgPath []int32) (*descpb.Descripto
 	return d, locs
 }
 
-// BuildFile builds the FileDescriptorProto of the file to generate.
+// BuildFile builds the FileDescriptorProto of the file to generate. Declarations marked InDep go into an imported
+// file of the same package (BuildDepFile), which Request places in front of it.
 func BuildFile(f *ir.File) *descpb.FileDescriptorProto {
+	fd := buildFile(f, f.Name, false)
+	if f.HasDep() {
+		dep := buildFile(f, f.DepName(), true)
+		fd.Dependency = append(fd.Dependency, dep.GetName())
+		depMu.Lock()
+		depOf[fd] = dep
+		depMu.Unlock()
+	}
+	return fd
+}
+
+var (
+	depMu sync.Mutex
+	depOf = map[*descpb.FileDescriptorProto]*descpb.FileDescriptorProto{}
+)
+
+// DepFile returns the imported file that belongs to a descriptor built by BuildFile (nil if none).
+func DepFile(fd *descpb.FileDescriptorProto) *descpb.FileDescriptorProto {
+	depMu.Lock()
+	defer depMu.Unlock()
+	return depOf[fd]
+}
+
+func buildFile(f *ir.File, name string, dep bool) *descpb.FileDescriptorProto {
 	fd := &descpb.FileDescriptorProto{
-		Name:       proto.String(f.Name),
+		Name:       proto.String(name),
 		Syntax:     proto.String("proto3"),
 		Dependency: []string{GogoProto, TimestampProto, DurationProto},
 		Options:    &descpb.FileOptions{},
@@ -290,18 +316,25 @@ func BuildFile(f *ir.File) *descpb.FileDescriptorProto {
 	mustSet(gogoproto.E_MarshalerAll, false)
 	mustSet(gogoproto.E_UnmarshalerAll, false)
 	sci := &descpb.SourceCodeInfo{}
-	for i, e := range f.Enums {
+	for _, e := range f.Enums {
+		if e.InDep != dep {
+			continue
+		}
 		ed := &descpb.EnumDescriptorProto{Name: proto.String(e.Name)}
 		for _, v := range e.Values {
 			ed.Value = append(ed.Value, &descpb.EnumValueDescriptorProto{Name: proto.String(v.Name), Number: proto.Int32(v.Number)})
 		}
 		fd.EnumType = append(fd.EnumType, ed)
-		_ = i
 	}
-	for i, m := range f.Messages {
+	i := 0
+	for _, m := range f.Messages {
+		if m.InDep != dep {
+			continue
+		}
 		d, locs := BuildMessage(f.Package, m, []int32{4, int32(i)})
 		fd.MessageType = append(fd.MessageType, d)
 		sci.Location = append(sci.Location, locs...)
+		i++
 	}
 	fd.SourceCodeInfo = sci
 	return fd
@@ -316,8 +349,21 @@ func Request(f *descpb.FileDescriptorProto, param string, extraBefore, extraAfte
 	}
 	req.ProtoFile = append(req.ProtoFile, Deps()...)
 	req.ProtoFile = append(req.ProtoFile, extraBefore...)
+	if dep := DepFile(f); dep != nil {
+		req.ProtoFile = append(req.ProtoFile, dep)
+	}
 	req.ProtoFile = append(req.ProtoFile, f)
 	req.ProtoFile = append(req.ProtoFile, extraAfter...)
+	return req
+}
+
+// RequestAll is Request with the imported file of f (if any) generated as well: what protoc-gen-gogo needs to
+// emit every struct of the package.
+func RequestAll(f *descpb.FileDescriptorProto, param string) *plugin.CodeGeneratorRequest {
+	req := Request(f, param, nil, nil)
+	if dep := DepFile(f); dep != nil {
+		req.FileToGenerate = []string{dep.GetName(), f.GetName()}
+	}
 	return req
 }
 
